@@ -87,3 +87,32 @@ func panicError(err error, r any) error {
 	}
 	return err
 }
+
+// failTracker is TestingT which remembers if any failure was reported.
+type failTracker struct {
+	TestingT
+	failed bool
+}
+
+func (t *failTracker) Errorf(format string, args ...any) {
+	t.failed = true
+	t.TestingT.Errorf(format, args...)
+}
+
+func (t *failTracker) FailNow() {
+	t.failed = true
+	t.TestingT.FailNow()
+}
+
+// assertError calls f and makes sure the test fails if error is not accepted by f.
+// Some AssertErrorFunc can return false without reporting any failure (e.g. ErrorMatch if pattern does not match).
+func assertError(t TestingT, f AssertErrorFunc, err error, failInfo string) bool {
+	ft := &failTracker{TestingT: t}
+	if f(ft, err, failInfo) {
+		return true
+	}
+	if !ft.failed {
+		assert.Fail(t, fmt.Sprintf("Unexpected error: %v", err), failInfo)
+	}
+	return false
+}
